@@ -35,6 +35,9 @@ func widened(o jgen.Opts) jgen.Opts {
 	o.NamesakeImports = true
 	// more often than chance has it: a call on an earlier local right after a statement with scopes of its own
 	o.CallsAfterScopes = true
+	// seventh seed batch: receivers (fields, parameters, locals) and methods named by a contextual keyword of newer
+	// Java (record, module, open, to, with, ...), which the shipped lexer gives token types of their own
+	o.KeywordNames = true
 	return o
 }
 
